@@ -17,6 +17,9 @@ def run(chk):
             chk.guard(C05_lean.run_lean)
         except ImportError:
             chk.notes.append("Lean lemmas not built in this round")
+        from contracts import C05_named
+        chk.guard(C05_named.run_named, getattr(chk, "tier", "quick") == "thorough", fallback=C05_named.replayers())
+        chk.discharge(workers=1)
     if not only or "bounded" in only:
         chk.bounded("bounded.C05")
     chk.assume("floating-point accuracy of expm/eig is not decided by any proof; tolerance 1e-8 in the bounded tier")
